@@ -127,7 +127,10 @@ class Twin:
         self.modules[name] = mod
         if parent is not None:
             setattr(parent, name.rsplit(".", 1)[1], mod)
-        code = compile(src, path, "exec")
+        import warnings
+        with warnings.catch_warnings():
+            warnings.simplefilter("ignore", SyntaxWarning)
+            code = compile(src, path, "exec")
         self.loaded_files.append(path)
         try:
             exec(code, mod.__dict__)
